@@ -1,8 +1,18 @@
-// own models of memcpy/memset: CBMC's built-ins mishandle symbolic lengths (DESIGN A.7)
+// own models of memcpy/memset/memmove: CBMC's built-ins mishandle symbolic lengths (DESIGN A.7)
 #ifndef VP_NATIVE
 #include <stddef.h>
 #include <stdint.h>
-void *memcpy(void *d, const void *s, size_t n){ __CPROVER_assert(n%8==0,"word-sized copy"); for(size_t i=0;i<n/8;i++) ((uint64_t*)d)[i]=((const uint64_t*)s)[i]; return d; }
-void *memset(void *d, int c, size_t n){ __CPROVER_assert(n%8==0&&c==0,"word-sized zeroing"); for(size_t i=0;i<n/8;i++) ((uint64_t*)d)[i]=0; return d; }
-
+void *memcpy(void *d, const void *s, size_t n) {
+    if (n % 8 == 0) { for (size_t i = 0; i < n / 8; i++) ((uint64_t *)d)[i] = ((const uint64_t *)s)[i]; }
+    else if (n % 4 == 0) { for (size_t i = 0; i < n / 4; i++) ((uint32_t *)d)[i] = ((const uint32_t *)s)[i]; }
+    else { for (size_t i = 0; i < n; i++) ((unsigned char *)d)[i] = ((const unsigned char *)s)[i]; }
+    return d;
+}
+void *memset(void *d, int c, size_t n) {
+    unsigned char b = (unsigned char)c;
+    if (n % 8 == 0) { uint64_t w = b * UINT64_C(0x0101010101010101); for (size_t i = 0; i < n / 8; i++) ((uint64_t *)d)[i] = w; }
+    else if (n % 4 == 0) { uint32_t w = b * UINT32_C(0x01010101); for (size_t i = 0; i < n / 4; i++) ((uint32_t *)d)[i] = w; }
+    else { for (size_t i = 0; i < n; i++) ((unsigned char *)d)[i] = b; }
+    return d;
+}
 #endif
